@@ -410,6 +410,11 @@ def evalAssign (facts : List String) (r : Regs) (args : List String) : Option Va
   | ["add_env_unsalted", e, a] => do
     let e ← r.env e; let a ← r.env a
     pure (.ofRes (addAssertionEnvelope H e a))
+  | ["add_salted_refused", e, a] => do
+    -- a salted add of an element that is no legal assertion element: refused before any salt is drawn
+    let e ← r.env e; let a ← r.env a
+    if a.slotOk then Option.none else pure (.ofRes (addAssertionEnvelope H e a))
+  | ["add_salted_none", e] => do let e ← r.env e; pure (.env e)
   | ["add_many_unsalted", e, xs] => do
     let e ← r.env e; let xs ← envs r xs
     pure (.ofRes (addAll H e xs))
